@@ -30,7 +30,7 @@ def cases(tier, seed):
     import random
     r = random.Random(seed)
     cs = []
-    n = 9 if tier == 'quick' else 60
+    n = 9 if tier == 'quick' else 300
     for si, (p, s) in enumerate(SHAPES):
         for h in range(n):
             ops = [r.choice(OPS) for _ in range(r.randint(2, 7))]
